@@ -1,6 +1,7 @@
 import SC.Proofs.KernGen
 import SC.Proofs.RIndex
 import SC.Proofs.RSuffix
+import SC.Proofs.RIndexAny6
 /-!
 # C14 — results do not depend on the CPU features or backend the build selects
 
@@ -30,6 +31,14 @@ theorem index_backend_free (cfg : A.Cfg) (n a : Bool) (s sub : Bytes) (r : Int) 
     A.HasPrefix { cfg with native := n, arm64 := a } s sub = A.HasPrefix cfg s sub ∧
     A.HasSuffix { cfg with native := n, arm64 := a } s sub = A.HasSuffix cfg s sub := by
   simp only [A.Index_eq, A.IndexRune_eq, A.HasPrefix_eq, A.HasSuffix_eq, and_self]
+
+theorem search_backend_free (cfg : A.Cfg) (n a : Bool) (s sub : Bytes) :
+    A.LastIndex { cfg with native := n, arm64 := a } s sub = A.LastIndex cfg s sub ∧
+    A.Count { cfg with native := n, arm64 := a } s sub = A.Count cfg s sub ∧
+    A.Cut { cfg with native := n, arm64 := a } s sub = A.Cut cfg s sub ∧
+    A.IndexAny { cfg with native := n, arm64 := a } s sub = A.IndexAny cfg s sub ∧
+    A.LastIndexAny { cfg with native := n, arm64 := a } s sub = A.LastIndexAny cfg s sub := by
+  simp only [A.LastIndex_eq, A.Count_eq, A.Cut_eq, A.IndexAny_eq, A.LastIndexAny_eq, and_self]
 
 example : genIndexByte [0x78, 0x4B, 0x6B] 0x6B = 1 ∧ genCount [0x78, 0x4B, 0x6B] 0x6B = 2 := by decide +kernel
 end C14
